@@ -106,6 +106,17 @@ Proof.
 Qed.
 Print Assumptions for_range_laws.
 
+(* refuted on the faithful model (and on the implementation, replayed by the
+   harness on every run): the result of `N of (<boolean>, ..)` does not depend
+   on the order of the items.  An undefined item aborts the statement when it
+   is reached. *)
+Theorem of_tuple_order_refuted :
+  exists en a b,
+    eval en (EOfB QExpr (EInt 1) (ECons a (ECons b ENil))) = VBool true /\
+    eval en (EOfB QExpr (EInt 1) (ECons b (ECons a ENil))) = VUndef.
+Proof. exact SemProofs.of_tuple_order_refuted. Qed.
+Print Assumptions of_tuple_order_refuted.
+
 (* the value of a condition does not depend on how its patterns are numbered *)
 Theorem id_renaming_invariance : forall f e en en',
   env_ren f en en' -> eval en' (rename f e) = eval en e.
